@@ -87,6 +87,13 @@ reg("C19",
     "SAX2DOM is compared on elements/namespaces/text only (it has attribute quirks of its own). Known finding: to_sax asserts on the walker's error token for a void-listed element with children.",
     "DESIGN.md §3 C19")
 
+reg("C01",
+    "differential testing vs. an independently written reference WHATWG tree constructor (on a reference tokenizer): Hypothesis markup soup x {document, fragment in 45 contexts} x scripting, exhaustive insertion-mode-prefix x token-pair product over a core alphabet, quirks-table enumeration, determinism re-runs in a fresh interpreter",
+    "Exploration with enumerated sub-domains: ~95 prefixes (one or more per insertion mode / stack shape) x every ordered pair of a 109-token core alphabet (both tiers; full 290-token alphabet at a stride in quick, completely in thorough), the standard's quirks tables x spelling/system-id variants observed through <p><table>, 10 biased soup campaigns; directly traversed html5lib trees (etree fullTree) must equal the reference's, attribute order included. "
+    "Recorded deviations are accepted only if the reference with exactly the compat switches whose trigger fired reproduces html5lib's tree; revision-ambiguous steps are excluded and counted. Held on everything explored.",
+    "Trusted: vf/ref/treebuilder.py + vf/ref/tokenizer.py (own transcriptions of the June-2020 standard, SPEC_NOTES.md); 27 recorded deviations of html5lib from the standard are listed in known_findings.json with pinned inputs.",
+    "DESIGN.md §3 C01")
+
 NOT_APPLICABLE = {}
 
 
